@@ -2,8 +2,6 @@
 //! canonical record per case.  `verif-harness <stream> <casefile>` is the supervisor: it spawns
 //! itself as a worker, and when the worker produces no record for a case within the time budget
 //! it kills it, records HANG for that case and restarts the worker after it.
-mod s_deb822;
-mod s_rel;
 mod util;
 
 use std::io::{BufRead, BufReader, Write};
@@ -11,14 +9,11 @@ use std::process::{Command, Stdio};
 use std::sync::mpsc;
 use std::time::Duration;
 
-type StreamFn = fn(&[&str]) -> String;
+pub type StreamFn = fn(&[&str]) -> String;
+include!(concat!(env!("OUT_DIR"), "/registry.rs"));
 
 fn stream_fn(name: &str) -> Option<StreamFn> {
-    Some(match name {
-        "deb822-parse" => s_deb822::deb822_parse,
-        "rel-parse" => s_rel::rel_parse,
-        _ => return None,
-    })
+    all_streams().into_iter().find(|(n, _)| *n == name).map(|(_, f)| f)
 }
 
 fn worker(stream: &str, file: &str, start: usize) {
